@@ -187,6 +187,13 @@ class AppCfgMgr:
                             instance_name)
             return
 
+        elif self._is_configured(event_file):
+            # Late event, the container was already configured (and is
+            # finished or being cleaned up).
+            _LOGGER.warning('Event on already configured container %r',
+                            instance_name)
+            return
+
         elif self._configure(instance_name):
             self._refresh_supervisor()
 
@@ -223,6 +230,15 @@ class AppCfgMgr:
         else:
             self._terminate(instance_name)
             self._refresh_supervisor()
+
+    def _is_configured(self, event_file):
+        """Check if the container of the cache entry already exists.
+        """
+        try:
+            container = appcfg.eventfile_unique_name(event_file)
+        except OSError:
+            return False
+        return os.path.exists(os.path.join(self.tm_env.apps_dir, container))
 
     def _is_running(self, event_file):
         """Check if the container of the cache entry is the running one.
